@@ -3,7 +3,8 @@
     Sni/WireProofs.v or Sni/WireGen.v, instantiated with the objects the
     translator regenerated from /repo (Gen/WireSchema.v). *)
 From Coq Require Import List NArith ZArith Bool String.
-From Verif Require Import Lib.Bytes Sni.Wire Sni.WireProofs Sni.WireGen Sni.WireFrozen Gen.WireSchema.
+From Verif Require Import Lib.Bytes Sni.Wire Sni.WireProofs Sni.WireGen Sni.WireFrozen Gen.WireSchema
+  Sni.WireChunks Sni.WireChunksProofs.
 Import ListNotations.
 Local Open Scope N_scope.
 
@@ -169,3 +170,55 @@ Proof.
   - repeat constructor; try discriminate.
   - exists [0;0;0;0;0;0]. split; [discriminate|reflexivity].
 Qed.
+
+(** * Round 3: the decoder reads from whatever reader it is handed *)
+
+(** [decoder.read] (io.ReadFull) on a reader that delivers the remaining
+    input in ANY pieces - short reads, zero-length reads, the last bytes
+    together with io.EOF or before it - is [d_read] on the flat input: the
+    first [n] bytes, or all of them and io.ErrUnexpectedEOF. *)
+Theorem C13_read_any_delivery : forall (r : reader N) fuel n c a,
+  (measure N r < fuel)%nat ->
+  let '(b, r') := read_full N fuel (N.to_nat n) r in
+  d_read n (mkD (flat N r) c None a) =
+  (b, mkD (flat N r') (c + N.min n (lenN (flat N r)))
+          (if n <=? lenN (flat N r) then None else Some EEof) a).
+Proof. exact d_read_any_reader. Qed.
+Print Assumptions C13_read_any_delivery.
+
+(** [decoder.end()]'s counting loop (1-byte probe, then 1 KiB reads) on such
+    a reader reports exactly the bytes left. *)
+Theorem C13_end_any_delivery : forall (r : reader N) fuel c a,
+  (measure N r < fuel)%nat ->
+  d_end (mkD (flat N r) c None a) =
+  let t := N.of_nat (end_count N fuel 1 1024 r) in
+  mkD [] c (if t =? 0 then None else Some (ETail t)) a.
+Proof. exact d_end_any_reader. Qed.
+Print Assumptions C13_end_any_delivery.
+
+(** Two readers holding the same bytes cannot be told apart by either
+    access path. *)
+Theorem C13_delivery_independent : forall (r1 r2 : reader N) min fuel buf big,
+  flat N r1 = flat N r2 -> (measure N r1 < fuel)%nat -> (measure N r2 < fuel)%nat ->
+  (0 < buf)%nat -> (0 < big)%nat ->
+  fst (read_full N fuel min r1) = fst (read_full N fuel min r2) /\
+  flat N (snd (read_full N fuel min r1)) = flat N (snd (read_full N fuel min r2)) /\
+  end_count N fuel buf big r1 = end_count N fuel buf big r2.
+Proof. exact (delivery_independent N). Qed.
+Print Assumptions C13_delivery_independent.
+
+(** What this leaves unsaid for the WHOLE decoder: every function of
+    Sni/Wire.v reaches the remaining input only through [d_read] and [d_end]
+    (by inspection of the definitions), so the theorems above carry over to
+    [dec_schema], [start_call] and [client_decode]; a statement of that needs
+    the decoder re-expressed over a [reader] and is not formalised (DESIGN.md
+    section 12, clause table of C13).  The reader-shape streams of the
+    correspondence run the real decoder under six delivery shapes against the
+    flat model. *)
+
+Example C13_nonvacuous_reader :
+  let r := mkR N [[1]; []; [2; 3]] true in
+  fst (read_full N 10 2 r) = [1; 2] /\ flat N (snd (read_full N 10 2 r)) = [3] /\
+  end_count N 10 1 1024 r = 3%nat /\
+  fst (read_full N 10 5 r) = [1; 2; 3] /\ chunks N (snd (read_full N 10 5 r)) = [].
+Proof. vm_compute. repeat split; reflexivity. Qed.
